@@ -13,7 +13,7 @@ class C07(BaseCheck):
   RULE = ('case = one pool configuration (min,max,queue) from a grid incl. (0,1,1) (1,1,inf) (1,2,2) '
           '(2,4,3) (1,3,0) and one history of 20-300 ops: issue (with/without deadline), complete a busy '
           'connection (reply/error), let queued requests time out, kill a connection (busy, or found dead '
-          'on release, or while cached), advance time; connections open synchronously / with delay. After '
+          'on release, or while cached), advance time; connections open synchronously / with delay; in every 5th case their Close() yields and half of the completions coincide with a new arrival (which then runs inside the release). After '
           'every op at a quiescent point the provider-side trace is checked against a reference model '
           '(bounds, exclusivity, FIFO hand-over, work conservation, max-waiters, idle retention, '
           'close-on-dead) and at the end a capacity probe issues max_watermark concurrent requests; in every other '
@@ -28,7 +28,7 @@ class C07(BaseCheck):
   REQUIRED_ANCHORS = ANCHORS
   REQUIRED_CLASSES = ('queued', 'timed-out-while-queued', 'stale-at-head', 'max-waiters', 'dead-on-release',
                       'idle-retention', 'probe', 'handover', 'closed-while-lent', 'fault-before-release',
-                      'recovering-after-timeout')
+                      'recovering-after-timeout', 'close-yields', 'arrival-during-release')
   ASSUMPTIONS = ('arrival order of queued requests = order in which their dispatch greenlets were spawned '
                  '(they do not yield before reaching the queue)',
                  'a max-waiters rejection is accepted whenever live + not-yet-skipped timed-out waiters >= '
@@ -55,6 +55,7 @@ class C07(BaseCheck):
     mn, mx, ql = rng.choice([(0, 1, 1), (1, 1, INF), (1, 2, 2), (2, 4, 3), (1, 3, 0), (0, 2, INF), (1, 1, 2),
                              (3, 3, 1), (1, 6, 4), (0, 1, INF)])
     open_mode = rng.choice(['sync', 'sync', 'delayed'])
+    close_yields = idx % 5 == 3        # connections whose Close() does cooperative work (flush, TLS shutdown)
     # like the serial transport, a connection on which a request timed out re-establishes itself and
     # reports Busy until that is done: for that long it cannot carry another request
     recover_delay = rng.choice([0.0, 0.0, 0.05, 0.3])
@@ -121,6 +122,9 @@ class C07(BaseCheck):
           self.closed = True
           env.emit('prov.close', sink=self.id)
         self._state = CLOSED
+        if close_yields and gevent.getcurrent() is not gevent.get_hub():
+          classes.add('close-yields')
+          gevent.sleep(0)
 
       def die(self, signal):
         self.dead = True
@@ -233,7 +237,7 @@ class C07(BaseCheck):
       return [r for r in reqs if r.get('queued_at') is not None and r['started'] is None
               and (include_stale or not r['deliveries'])]
 
-    def issue(timeout=None):
+    def issue(timeout=None, first=None):
       req = {'id': len(reqs), 'step': step[0], 'vt': env.now, 'started': None, 'deliveries': [],
              'timeout': timeout, 'queued_at': None, 'creator': False}
       reqs.append(req)
@@ -255,9 +259,17 @@ class C07(BaseCheck):
         finally:
           by_greenlet.pop(gevent.getcurrent(), None)
       g = gevent.spawn(run)
+      if first is not None:
+        # something else happens in the instant of the arrival, before the arriving greenlet gets to
+        # run (a completion: if releasing the connection yields, the arrival runs inside that window)
+        first()
       gevent.sleep(0)      # let it run up to its first yield
       # classify what the pool did with it
-      if req['started'] is None and not req['deliveries'] and not req['creator'] and g.ready():
+      if first is not None:
+        if req['started'] is None and not req['deliveries'] and not req['creator'] and g.ready():
+          req['queued_at'] = req['id']
+          classes.add('queued')
+      elif req['started'] is None and not req['deliveries'] and not req['creator'] and g.ready():
         req['queued_at'] = req['id']
         classes.add('queued')
         out.obligations += 1
@@ -344,7 +356,13 @@ class C07(BaseCheck):
       if k < 0.42:
         issue(rng.choice([None, None, 0.05, 0.3, 2.0]))
       elif k < 0.75 and busy:
-        complete(rng.choice(busy), rng.choice(['reply', 'reply', 'error']))
+        if close_yields and rng.random() < 0.5:
+          # a completion and an arrival in the same instant
+          classes.add('arrival-during-release')
+          s_c, how_c = rng.choice(busy), rng.choice(['reply', 'reply', 'error'])
+          issue(rng.choice([None, None, 0.3, 2.0]), first=lambda: complete(s_c, how_c))
+        else:
+          complete(rng.choice(busy), rng.choice(['reply', 'reply', 'error']))
       elif k < 0.80 and pool_closed_at[0] is None and rng.random() < 0.5:
         cands = live()
         if cands:
